@@ -33,6 +33,8 @@ struct RabinPlayers {
       ring.keys[i] = TMCG_PublicKey(*sk[i]); d << (i ? "," : " keys=") << sz;
     }
   }
+  // fixed players (no draws): for harness-level statics, which must not consume choices of the case that happens to come first
+  RabinPlayers(size_t k, unsigned long sz, unsigned off) : ring(k) { for (size_t i = 0; i < k; i++) { sk.push_back(new TMCG_SecretKey(rabin_key_text(sz, false, (unsigned)((i + off) % 6)))); ring.keys[i] = TMCG_PublicKey(*sk[i]); } }
   ~RabinPlayers() { for (auto p : sk) delete p; }
   size_t size() const { return sk.size(); }
 };
